@@ -82,6 +82,9 @@ pub struct Session {
     /// workers that have seen a request (or shutdown) and not yet reported completion
     pub busy_workers: AtomicI64,
     pub coordinator_rounds: AtomicU64,
+    /// Environment choice "the flush workers are slow": workers stay parked before
+    /// taking their next request while this is set (sequential engines only).
+    pub hold_workers: AtomicBool,
     pub sched: Mutex<Option<Arc<dyn SchedHooks>>>,
     /// Environment action run when the store reaches a named point (sequential engines).
     pub point_cb: Mutex<Option<Box<dyn Fn(&'static str) + Send + Sync>>>,
@@ -110,6 +113,7 @@ impl Session {
             worker_begin: AtomicU64::new(0),
             busy_workers: AtomicI64::new(0),
             coordinator_rounds: AtomicU64::new(0),
+            hold_workers: AtomicBool::new(false),
             sched: Mutex::new(None),
             point_cb: Mutex::new(None),
             points_seen: Mutex::new(Vec::new()),
@@ -281,7 +285,7 @@ impl Handler for Session {
         } else if name == "worker_recv" {
             // never block in the OS with an empty channel: poll, so that "a request is
             // queued" and "a worker is busy" together cover every instant
-            while !ready() {
+            while !ready() || self.hold_workers.load(Ordering::SeqCst) {
                 std::thread::sleep(std::time::Duration::from_micros(50));
             }
         }
